@@ -143,7 +143,19 @@ type gen struct {
 	maxDepth int
 	// extendable[fi]: nested names of the proto2 messages of file fi that declare an extension range
 	extendable map[int][]string
+	// collide (name-collision workspaces, collide.go): names are deliberately REUSED wherever the
+	// protobuf language allows it — a name used in one scope is echoed in other scopes (nested
+	// messages / enums of different parents, sometimes differing in the case of one letter only), an
+	// RPC name is reused by other services of the package
+	collide    bool
+	pascalSeen []pascalName
+	rpcNames   map[string][]string // package scope -> RPC names used by its services
 }
+
+// caseTwin: a PascalCase name that differs from n in the CASE of one letter only (and is itself
+// PascalCase with a known UPPER_SNAKE_CASE form)
+var caseTwin = map[string]pascalName{"FooBar": {"Foobar", "FOOBAR"}, "ItemKind": {"Itemkind", "ITEMKIND"}, "UserRole": {"Userrole", "USERROLE"},
+	"Foobar": {"FooBar", "FOO_BAR"}, "Itemkind": {"ItemKind", "ITEM_KIND"}, "Userrole": {"UserRole", "USER_ROLE"}}
 
 func (g *gen) uniq(scope, base string, alt func(n int) string) string {
 	name := base
@@ -155,6 +167,25 @@ func (g *gen) uniq(scope, base string, alt func(n int) string) string {
 }
 
 func (g *gen) pascal(scope string) pascalName {
+	if g.collide && len(g.pascalSeen) > 0 && g.r.Chance(1, 2) {
+		// echo a name that another scope already uses (or its case twin)
+		cand := hx.Pick(g.r, g.pascalSeen)
+		if t, ok := caseTwin[cand.pascal]; ok && g.r.Chance(1, 3) {
+			cand = t
+		}
+		if !g.used[scope+"\x00"+cand.pascal] {
+			g.used[scope+"\x00"+cand.pascal] = true
+			return cand
+		}
+	}
+	n := g.pascalFresh(scope)
+	if g.collide {
+		g.pascalSeen = append(g.pascalSeen, n)
+	}
+	return n
+}
+
+func (g *gen) pascalFresh(scope string) pascalName {
 	b := hx.Pick(g.r, pascalPool)
 	e := hx.Pick(g.r, extraWords)
 	cand := pascalName{b.pascal + e.pascal, b.upper + e.upper}
@@ -431,10 +462,25 @@ func (g *gen) service(fi int, pkgScope string) svcT {
 	for i := 0; i < n; i++ {
 		g.rpcCount++
 		rn := hx.Pick(g.r, rpcVerbs) + hx.Pick(g.r, pascalPool).pascal
-		rn = g.uniq(pkgScope+"#rpc", rn, func(k int) string { return rn + strconv.Itoa(g.rpcCount) + "x" + strconv.Itoa(k) })
-		m := rpcT{name: rn, comment: g.comment(), dottedIn: g.r.Chance(1, 3), noise: g.noise(rpcNoise, 1, 4)}
 		prefix := ""
-		if g.r.Chance(1, 3) {
+		reused := false
+		if g.collide && len(g.rpcNames[pkgScope]) > 0 && g.r.Chance(1, 2) {
+			// the RPC name of another service of the package: legal (RPC names are scoped by their
+			// service); the request / response types carry the service name to stay unique
+			cand := hx.Pick(g.r, g.rpcNames[pkgScope])
+			if !g.used[pkgScope+"#rpc#"+s.name+"\x00"+cand] && !g.used[pkgScope+"\x00"+s.name+cand+"Request"] && !g.used[pkgScope+"\x00"+s.name+cand+"Response"] {
+				rn, prefix, reused = cand, s.name, true
+			}
+		}
+		if !reused {
+			rn = g.uniq(pkgScope+"#rpc", rn, func(k int) string { return rn + strconv.Itoa(g.rpcCount) + "x" + strconv.Itoa(k) })
+		}
+		g.used[pkgScope+"#rpc#"+s.name+"\x00"+rn] = true
+		if g.collide {
+			g.rpcNames[pkgScope] = append(g.rpcNames[pkgScope], rn)
+		}
+		m := rpcT{name: rn, comment: g.comment(), dottedIn: g.r.Chance(1, 3), noise: g.noise(rpcNoise, 1, 4)}
+		if !reused && g.r.Chance(1, 3) {
 			prefix = s.name
 		}
 		empty := ref{-1, "google.protobuf.Empty"}
